@@ -144,7 +144,7 @@ Definition sample_surface_normals (V : list v3) (F : list tri) (chosen : list Z)
 (* ------------------------------------------------------------------ de Casteljau (scalar core) *)
 (* for i in range(m): coeffs[i] = lerp(coeffs[i], coeffs[i+1])  - in place, ascending i, so entry i+1 is
    still the old one when it is read; None = IndexError *)
-Fixpoint dc_inner_loop (t : T) (l : list T) (m : nat) : option (list T) :=
+Fixpoint dc_inner_loop (t : T) (l : list T) (m : nat) {struct m} : option (list T) :=
   match m with
   | O => Some l
   | S m' => match l with
